@@ -116,7 +116,8 @@ def do_run(names, tier, props):
         meta = json.load(open(os.path.join(d, "meta.json")))
         if not meta.get("kept", True):
             continue
-        plist = props or [meta["property"]]
+        plist = props or ([x for x in meta.get("run_props", "").split(",") if x] or [meta["property"]])
+        silent_expected = meta.get("expect") == "silent"
         wt = "/tmp/lqmut_%s_%d" % (name, os.getpid())
         sh(["git", "-C", "/repo", "worktree", "add", "-q", "--detach", wt, "HEAD"])
         try:
@@ -129,6 +130,8 @@ def do_run(names, tier, props):
                 rc, o = sh([os.path.join(HERE, "check"), p, "--tier", tier], cwd=HERE, env=env, timeout=7200)
                 lines = [l for l in o.splitlines() if l.startswith(("VIOLATION", "  sig=", "INCONCLUSIVE")) or " tier=" in l]
                 verdict = {0: "MISSED", 1: "caught", 2: "inconclusive"}.get(rc, "rc%d" % rc)
+                if silent_expected:
+                    verdict = {0: "silent (ok)", 1: "FALSE ALARM", 2: "inconclusive"}.get(rc, "rc%d" % rc)
                 res.setdefault(name, {})[p] = {"verdict": verdict, "lines": [l[:300] for l in lines[:8]]}
                 print("%-10s %s %s: %s" % (name, p, tier, verdict), flush=True)
                 for l in lines[:4]:
@@ -163,8 +166,11 @@ def do_report():
         f.write("| seed | property | status | change | needs | verdicts (check/tier: result) |\n|---|---|---|---|---|---|\n")
         for r in rows:
             f.write("| %s | %s | %s | %s | %s | %s |\n" % r)
-    kept = [r for r in rows if r[2] == "kept"]
+    kept = [r for r in rows if r[2] == "kept" and not r[0].startswith("FA-")]
     caught = [r for r in kept if "caught" in r[5]]
+    for r in rows:
+        if r[0].startswith("FA-") and "FALSE ALARM" in r[5]:
+            print("  FALSE ALARM:", r[0], r[5])
     print("%d seeds, %d kept, %d of the kept caught by at least one check" % (len(rows), len(kept), len(caught)))
     for r in kept:
         if "caught" not in r[5]:
